@@ -7,13 +7,18 @@ real engine by the `c19 …` driver operations replayed by the harness.
 
 Fragment: fields of type STRING / BOOLEAN / INTEGER / DOUBLE (and the id column), comparisons
 EQ NE LT LE GT GE in disjunctive normal form, ORDER BY, OFFSET, LIMIT, count, audit, replace, delete.
-Outside (oracle only): UUID fields, LIKE / NOT_LIKE, secondary and unique indexes.
+Outside (oracle only): UUID fields, LIKE / NOT_LIKE, unique-index violations.
+Secondary indexes: `Doc/SqlBridge.lean` translates a compiled query into the single-table SELECT the engine issues
+and runs it through the SQL planner model of C11 (`Sql/SelectPlan.lean`) over ANY set of secondary indexes; the
+theorems `search_through_any_index…` (helper lemmas: `Doc/SqlBridgeProofs.lean`) say the answer is the one of the
+index-free specification.
 Document proofs: `ImmuModel/Doc/Verify.lean` mirrors `pkg/verification.VerifyDocument`; the theorems
 `verifyDocument_sound` / `verifyDocument_entry_in_tx` (end of this file) say what an accepted proof establishes.
 -/
 import ImmuModel.Doc.Doc
 import ImmuModel.Doc.Proofs
 import ImmuModel.Doc.VerifyProofs
+import ImmuModel.Doc.SqlBridgeProofs
 import ImmuModel.Tx.Concrete
 
 namespace ImmuModel.Props.C19
@@ -400,5 +405,149 @@ example : (match DocVerify.verifyDocument toyHs (fun _ => true) [7] .same ⟨0, 
 example : (match DocVerify.verifyDocument toyHs (fun _ => true) [7] .same ⟨0, Digest.ofBytes []⟩ exForged with
     | some (.error .invalidProof) => true
     | _ => false) = true := by decide
+
+-- ------------------------------------------------------------------ searches through secondary indexes
+
+/-- Every query `compile` accepts is TYPED — each comparison is over an existing field and its constant is NULL or
+has the kind of the field's type (`structValueToSqlValue` never returns a value of another kind) — and has a
+translation into the single-table SELECT (`docPQuery` does not fail): the typing hypothesis of
+`search_through_any_index` holds for every query the engine accepts. -/
+theorem compiled_query_typed (fields : List Field) (q : Query) (cq : CQuery) (offset : Nat)
+    (h : compile fields q = .ok cq) :
+    typedExprs fields cq.exprs = true ∧ ∃ pq, docPQuery fields cq offset = some pq :=
+  SqlBridgeAux.compiled_translates fields q cq offset h
+
+/-- The translated WHERE clause means what the index-free specification means: on the SQL row of every live
+document it evaluates to `rowMatches` (never NULL, never an error), so the rows the SQL specification keeps are
+exactly the rows of the documents the document specification keeps. -/
+theorem translated_filter_faithful (c : Coll) (es : List (List CCmp)) (p : Sql.Pred)
+    (hwf : (docTable c).wf = true) (hid : idsConsistent c = true)
+    (ht : typedExprs c.fields es = true) (hp : toPred c.fields es = some p) :
+    (∀ h ∈ liveHits c, p.eval (toSqlRow c.fields h) = .ok (some (rowMatches es h.row))) ∧
+    Sql.rowsWhere p (docTable c).rows =
+      ((liveHits c).filter (fun h => rowMatches es h.row)).map (toSqlRow c.fields) :=
+  ⟨fun h hh => SqlBridgeAux.eval_toPred c.fields h (SqlBridgeAux.goodHits_of_wf c hwf hid h hh) es p ht hp,
+    SqlBridgeAux.rowsWhere_docTable c es p hwf hid ht hp⟩
+
+/-- **Whatever indexes exist, the same documents are found.**  The document query, translated to the SELECT that
+`embedded/document` issues and answered by the SQL planner model over ANY list of secondary indexes `secs` —
+whichever index `genScanSpecs` picks (ORDER BY coverage, equality-lookup fallback), whatever key window
+`keyReaderSpecFrom` builds for it, with or without the sort step — returns, as a multiset, exactly the ids of the
+index-free specification `search`.  Hypotheses (all decidable): the stored typed views fit their columns and hold
+no NaN / −0.0 (`(docTable c).wf`), each carries its document's id (`idsConsistent`), the query is typed (always
+true for compiled queries: `compiled_query_typed`), its constants fit their columns and are not NaN / −0.0
+(`plainExprs`), no LIMIT. -/
+theorem search_through_any_index (c : Coll) (secs : List (List Bytes)) (q : CQuery) (pl : Sql.Plan)
+    (ids : List Bytes)
+    (hwf : (docTable c).wf = true) (hid : idsConsistent c = true)
+    (ht : typedExprs c.fields q.exprs = true) (hpl : plainExprs q.exprs = true) (hl : q.limit = 0)
+    (h : ixSearch c secs q 0 = .ok (pl, ids)) :
+    ids.Perm (search c q 0) :=
+  SqlBridgeAux.search_any_index c secs q pl ids hwf hid ht hpl hl h
+
+/-- **… in ORDER BY order**, for every LIMIT and OFFSET: the SQL rows behind the returned ids are sorted by the
+translated ORDER BY whether or not the planner dropped the sort step; they are the rows of live documents `hits`
+that satisfy the filter, `ids` are their ids in that order, and consecutive — indeed all — pairs are in the
+document model's order (`ordCmp ≤ 0`). -/
+theorem search_through_any_index_sorted (c : Coll) (secs : List (List Bytes)) (q : CQuery) (offset : Nat)
+    (pl : Sql.Plan) (ids : List Bytes)
+    (hwf : (docTable c).wf = true) (hid : idsConsistent c = true)
+    (ht : typedExprs c.fields q.exprs = true) (hpl : plainExprs q.exprs = true)
+    (h : ixSearch c secs q offset = .ok (pl, ids)) :
+    ∃ (pq : Sql.PQuery) (ss : List (List Nat)) (rows : List Sql.Row) (hits : List Hit),
+      docPQuery c.fields q offset = some pq ∧ toSecs c.fields secs = some ss ∧
+      Sql.runPlan (docTable c) ss pq = .ok (pl, rows) ∧ rows.Pairwise (Sql.ordLe pq.order) ∧
+      rows = hits.map (toSqlRow c.fields) ∧ ids = hits.map (·.id) ∧
+      (∀ x ∈ hits, x ∈ liveHits c ∧ rowMatches q.exprs x.row = true) ∧
+      hits.Pairwise (fun a b => ordCmp q.order a.row b.row ≤ 0) :=
+  SqlBridgeAux.search_any_index_sorted c secs q offset pl ids hwf hid ht hpl h
+
+/-- **… and LIMIT / OFFSET is a slice**: with paging the answer is the window of the unpaged answer of the SAME
+plan (stream cut short without the sort step, cut after it with it). -/
+theorem search_through_any_index_paged (c : Coll) (secs : List (List Bytes)) (q : CQuery) (offset : Nat)
+    (pl : Sql.Plan) (all : List Bytes)
+    (h0 : ixSearch c secs { q with limit := 0 } 0 = .ok (pl, all)) :
+    ixSearch c secs q offset = .ok (pl, window offset q.limit all) :=
+  SqlBridgeAux.search_any_index_paged c secs q offset pl all h0
+
+-- non-vacuity: fields a, b INTEGER, composite index (a, b), `a <= 3 AND b >= 2 ORDER BY a`
+def ixA : Bytes := [97]
+def ixB : Bytes := [98]
+def ixFields : List Field := [⟨ixA, .int⟩, ⟨ixB, .int⟩]
+def ixDoc (id : UInt8) (a b : Int) : DocEntry :=
+  { id := [id], revs := [{ doc := some [], row := [(idField, .id [id]), (ixA, .int a), (ixB, .int b)] }] }
+def ixColl : Coll :=
+  { fields := ixFields, docs := [ixDoc 1 1 5, ixDoc 2 1 1, ixDoc 3 2 2, ixDoc 4 3 3, ixDoc 5 4 4, ixDoc 6 0 9] }
+def ixQ : CQuery := { exprs := [[⟨ixA, .le, .int 3⟩, ⟨ixB, .ge, .int 2⟩]], order := [(ixA, false)], limit := 0 }
+
+example : (docTable ixColl).wf = true ∧ idsConsistent ixColl = true ∧
+    typedExprs ixColl.fields ixQ.exprs = true ∧ plainExprs ixQ.exprs = true := by decide
+
+def ixPQ : Sql.PQuery :=
+  { hint := none, order := [⟨1, false⟩], limit := 0, offset := 0,
+    where_ := .and (.cmp 1 .le false (.int 3)) (.cmp 2 .ge false (.int 2)) }
+
+example : docPQuery ixFields ixQ 0 = some ixPQ := rfl
+
+example : ixSearch ixColl [[ixA, ixB]] ixQ 0 =
+    .ok ({ idx := [1, 2], desc := false, sort := false }, [[6], [1], [3], [4]]) := by decide
+
+example : search ixColl ixQ 0 = [[6], [1], [3], [4]] := by decide
+
+
+-- all hypotheses of `search_through_any_index` hold jointly on the instance; the theorem applies
+example : [[6], [1], [3], [4]].Perm (search ixColl ixQ 0) :=
+  search_through_any_index ixColl [[ixA, ixB]] ixQ { idx := [1, 2], desc := false, sort := false } _
+    (by decide) (by decide) (by decide) (by decide) rfl (by decide)
+
+-- the same query without the index: primary scan + sort step, the same ids
+example : ixSearch ixColl [] ixQ 0 =
+    .ok ({ idx := [0], desc := false, sort := true }, [[6], [1], [3], [4]]) := by decide
+
+-- with an index on b only: not usable for the ORDER BY, primary scan + sort step again
+example : ixSearch ixColl [[ixB]] ixQ 0 =
+    .ok ({ idx := [0], desc := false, sort := true }, [[6], [1], [3], [4]]) := by decide
+
+-- `search_through_any_index_paged` applies: LIMIT 2 OFFSET 1 through the composite index
+example : ixSearch ixColl [[ixA, ixB]] { ixQ with limit := 2 } 1 =
+    .ok ({ idx := [1, 2], desc := false, sort := false }, [[1], [3]]) :=
+  search_through_any_index_paged ixColl [[ixA, ixB]] { ixQ with limit := 2 } 1 _ [[6], [1], [3], [4]] (by decide)
+
+-- the key window of the composite index for this query: `a`'s column has only an upper bound, so NO lower
+-- bound is written at all (`b >= 2` must not end up at `a`'s position) …
+example : (Sql.Pred.and (.cmp 1 .le false (.int 3)) (.cmp 2 .ge false (.int 2))).ranges [] =
+    .ok [(1, { hi := some (.int 3) }), (2, { lo := some (.int 2) })] := rfl
+
+example : Sql.keyBounds (docCols ixFields) [(1, { hi := some (.int 3) }), (2, { lo := some (.int 2) })] [1, 2] [] []
+    false false = .ok ([], [0x80, 0x80, 0, 0, 0, 0, 0, 0, 3, 0xFF]) := by decide
+
+-- … the document (a = 1, b = 5) satisfies the filter, lies inside that window, and would be lost if the encoded
+-- bound of `b` (2) were used as the lower key; (a = 4, b = 4) is outside the window (the window does restrict)
+example : (match Sql.indexKey (docTable ixColl) [1, 2] [.blob [1], .int 1, .int 5] with
+    | .ok k => Sql.inWindow [] [0x80, 0x80, 0, 0, 0, 0, 0, 0, 3, 0xFF] k &&
+        !Sql.inWindow [0x80, 0x80, 0, 0, 0, 0, 0, 0, 2] [0x80, 0x80, 0, 0, 0, 0, 0, 0, 3, 0xFF] k
+    | .error _ => false) = true := by decide
+
+example : (match Sql.indexKey (docTable ixColl) [1, 2] [.blob [5], .int 4, .int 4] with
+    | .ok k => !Sql.inWindow [] [0x80, 0x80, 0, 0, 0, 0, 0, 0, 3, 0xFF] k
+    | .error _ => false) = true := by decide
+
+-- a query on the id column and one with OR / NULL: the bridge hypotheses hold and the answers agree
+def ixQ2 : CQuery :=
+  { exprs := [[⟨idField, .gt, .id [2]⟩, ⟨ixB, .lt, .int 9⟩], [⟨ixA, .eq, .null⟩]], order := [(ixB, true)], limit := 0 }
+
+example : typedExprs ixColl.fields ixQ2.exprs = true ∧ plainExprs ixQ2.exprs = true := by decide
+example : ixSearch ixColl [[ixA, ixB], [ixB]] ixQ2 0 =
+    .ok ({ idx := [2], desc := true, sort := false }, [[5], [4], [3]]) := by decide
+example : search ixColl ixQ2 0 = [[5], [4], [3]] := by decide
+
+-- `compiled_query_typed`: a query as the API sends it compiles, and then it is typed
+def ixRawQ : Query :=
+  { exprs := [[⟨ixA, .le, .num 0x4008000000000000⟩, ⟨ixB, .ge, .num 0x4000000000000000⟩]],
+    order := [(ixA, false)], limit := 0 }
+
+example : (match compile ixFields ixRawQ with
+    | .ok cq => cq.exprs == ixQ.exprs && typedExprs ixFields cq.exprs
+    | .error _ => false) = true := by decide
 
 end ImmuModel.Props.C19
